@@ -32,11 +32,12 @@ def bounds(tier, explicit=True):
         return {'buffersize': [3, 4], 'max_buffers': [2], 'window_size_max': 6, 'offset_max': 8,
                 'file_extra_max': 0, 'arg_range': [-8, 8], 'sequence_len': 2}
     if explicit:
-        return {'buffersize': [2, 3, 4, 5], 'max_buffers': [2, 3], 'window_size_max': 12, 'offset_max': 12,
-                'file_extra_max': 8, 'arg_range': [-15, 15], 'sequence_len': 2,
-                'lazy_mode': {'window_size_max': 8, 'arg_range': [-10, 10]}}
-    return {'buffersize': [2, 3, 4, 5], 'max_buffers': [2, 3], 'window_size_max': 8, 'offset_max': 12,
-            'file_extra_max': 0, 'arg_range': [-10, 10], 'sequence_len': 2}
+        # sized by wall time: buffersize 1..8 x window 16 ran past 40 minutes, 2..5 x 12 past 30
+        return {'buffersize': [2, 3, 4], 'max_buffers': [2, 3], 'window_size_max': 10, 'offset_max': 10,
+                'file_extra_max': 7, 'arg_range': [-13, 13], 'sequence_len': 2,
+                'lazy_mode': {'window_size_max': 7, 'arg_range': [-9, 9]}}
+    return {'buffersize': [2, 3, 4], 'max_buffers': [2, 3], 'window_size_max': 7, 'offset_max': 10,
+            'file_extra_max': 0, 'arg_range': [-9, 9], 'sequence_len': 2}
 
 
 def OBLIGATIONS(tier):
